@@ -128,12 +128,13 @@ Qed.
 
 (* ---- the signature rules are a normalisation: the signature styles see a field list only through norm ---- *)
 Lemma class_group_through_norm gk fs :
-  norm fs <> [] -> as_class_group gk fs = as_class_group gk (norm fs) /\ explicit (norm fs) = true.
+  public fs = true -> norm fs <> [] ->
+  as_class_group gk fs = as_class_group gk (norm fs) /\ explicit (norm fs) = true.
 Proof.
-  intro H. split; [|apply norm_explicit].
+  intros Hp H. split; [|apply norm_explicit, Hp].
   rewrite (class_group_table gk fs H).
-  rewrite (class_group_table gk (norm fs)) by (rewrite norm_idem; exact H).
-  rewrite norm_idem. reflexivity.
+  rewrite (class_group_table gk (norm fs)) by (rewrite (norm_idem fs Hp); exact H).
+  rewrite (norm_idem fs Hp). reflexivity.
 Qed.
 
 (* ================================ witnesses ================================ *)
